@@ -546,6 +546,12 @@ def run(ctx, load):
     check_mem_asks_table(P, ctx)
     from .rules_c06 import check_finalise_unregisters
     check_finalise_unregisters(P, ctx, 'C17.finalised-not-registered')
+    # an object is registered once, by its allocator, with the flag it was asked for: the constructing entry points hand the allocator's
+    # result straight on (a second registration keeps the first entry's flag and counts twice)
+    from .rules_c06 import check_registered_before_use
+    Pa = load(None, 'default')
+    ctx.config = 'default'
+    check_registered_before_use(Pa, ctx, rule='C17.registered-once-by-the-allocator')
 
 
 EXPLANATION = (
